@@ -3,7 +3,7 @@
 import json, sys
 notes = {
  "C01": ("headers", "NewBranch aliases the fork point's accumulated work (work = last.AccumulatedWork, then Add in place): needs a fork; then the parent header's recorded work and every comparison through it are wrong", "caught by the checks as they were"),
- "C02": ("headers", "same one-line aliasing in NewBranch, presented against C02: the fork point's accumulated work grows by the new header's work, so chain work stops being the sum of per-header work", "first exit 2 / missed by the PoW arithmetic runs; process-level run comparing accumulated work with the sum of header works added"),
+ "C02": ("headers", "same one-line aliasing in NewBranch, presented against C02: the fork point's accumulated work grows by the new header's work, so chain work stops being the sum of per-header work", "missed at first (the PoW runs looked at one header at a time); the bits-rule run now also requires that a submission never changes the target required of the existing chain"),
  "C03": (".", "handleHeadersVerify scans past headers the repository does not recognise until one verifies: needs a reply whose first header is unknown and a later one is the split header", "missed at first (replies had one header); node harness with up to 2 headers per reply and the real VerifyHeader added"),
  "C04": (".", "announced tx count only checked when the merkle root mismatches: needs a block whose delivered prefix already has the committed root (count announced too high)", "caught by the checks as they were"),
  "C05": (".", "blockSyncNeeded cleared after the walk back: needs a new tip arriving while a round is walking back, and nothing afterwards", "missed at first; trigger during the walk back (hook in the harness's header repository) and idle-completeness assertion added"),
